@@ -98,6 +98,9 @@ def run_cc(ctx, name, corpus, only):
             n = r["name"]
             if r["status"] == "ok":
                 req2.append(f"(k5 {r['tmp']})"); idx.append((n, "k5"))
+                req2.append(f"(k9 {src[n]})"); idx.append((n, "k9s"))
+                req2.append(f"(k9 {r['tmp']})"); idx.append((n, "k9t"))
+                req2.append(f"(k9 {r['final']})"); idx.append((n, "k9f"))
                 if not r.get("build"):
                     req2.append(f"(k6s {FUEL} {PULLS} {src[n]})"); idx.append((n, "k6s"))
                     req2.append(f"(k6t {FUEL} {PULLS} {r['final']})"); idx.append((n, "k6t_final"))
@@ -112,7 +115,7 @@ def run_cc(ctx, name, corpus, only):
         for (n, k), a in zip(idx, ans2):
             lean[(n, k)] = a
 
-        parts = {k: {"n": 0, "dis": []} for k in ("k4", "k4acc", "k5", "k6a", "k6b", "k6c", "k6d", "k6e", "k6build")}
+        parts = {k: {"n": 0, "dis": []} for k in ("k4", "k4acc", "k5", "k6a", "k6b", "k6c", "k6d", "k6e", "k6build", "k9", "k9impl")}
 
         def dis(part, n, **kw):
             d = {"program": n, "source": src[n], "size": len(src[n])}
@@ -120,7 +123,7 @@ def run_cc(ctx, name, corpus, only):
             parts[part]["dis"].append(d)
 
         kinds = Counter()
-        n_supported = n_yields = n_panics = 0
+        n_supported = n_yields = n_panics = n_scope_ok = n_shadow = 0
         distinct_traces = set()
         for r in res:
             n = r["name"]
@@ -153,6 +156,28 @@ def run_cc(ctx, name, corpus, only):
             parts["k5"]["n"] += 1
             if canon(lean.get((n, "k5"), "")) != canon("ok " + r["final"]):
                 dis("k5", n, model=lean.get((n, "k5"), ""), impl="ok " + r["final"], tmp=r["tmp"])
+            # k9: Go's own scoping (go/types) of the source / intermediate / final text against the Lean scope
+            # function on the same ASTs; k9impl: go/types alone - every atom of the generated code sees the
+            # declarations it sees in the source (for bodies inside the theorem's guard)
+            def toks(a):
+                a = a.partition("\t")[0]
+                return sorted(a[3:].split()) if a.startswith("ok ") else None
+            for key, field in (("k9s", "scope_s"), ("k9t", "scope_t"), ("k9f", "scope_f")):
+                parts["k9"]["n"] += 1
+                m = toks(lean.get((n, key), ""))
+                g = sorted(r.get(field, "").split())
+                if m != g:
+                    dis("k9", n, which=key, model=" ".join(m or ["?"]), go_types=" ".join(g))
+            scope_ok = "scopeOK=true" in lean.get((n, "k9s"), "")
+            if scope_ok:
+                n_scope_ok += 1
+                parts["k9impl"]["n"] += 1
+                if r.get("scope_f") != r.get("scope_s") or r.get("scope_t") != r.get("scope_s"):
+                    dis("k9impl", n, reference="source (go/types): " + r.get("scope_s", ""),
+                        impl="generated (go/types): final " + r.get("scope_f", "") + " | tmp " + r.get("scope_t", ""))
+            if r.get("scope_s"):
+                n_shadow += 1 if any(len(set(t.split(":")[1].split(","))) < len(t.split(":")[1].split(","))
+                                     for t in r["scope_s"].split() if ":" in t and t.split(":")[1]) else 0
             parts["k6e"]["n"] += 1
             if bool(r.get("build")) == buildable:
                 dis("k6e", n, model=f"Buildable={buildable}", impl=(r.get("build") or "builds")[:600])
@@ -206,5 +231,6 @@ def run_cc(ctx, name, corpus, only):
                 "status": dict(Counter(r["status"] for r in res)),
                 "model_rejects": dict(Counter(p[4:] for p in pred.values() if p.startswith("err "))),
                 "statement_kinds": dict(kinds), "yields_delivered": n_yields, "panicking_runs": n_panics,
-                "distinct_nontrivial": len(distinct_traces), "gen_stats": gen_stats, "samples": samples,
+                "distinct_nontrivial": len(distinct_traces), "gen_stats": gen_stats,
+                "scope_inside_guard": n_scope_ok, "programs_with_shadowing": n_shadow, "samples": samples,
                 "evaluations": len(res), "witness": verdicts}
